@@ -1,9 +1,16 @@
 /-
 C08 — Rendering and tagify are pure and consistent; tagify returns an independent copy.
-This file: the equality clause (`==`).  The purity / independence clauses follow below (identity layer).
+First part: the equality clause (`==`).  Second part (from "identity layer" on): tagify refines the expansion, equals
+the original when nothing needed expansion, is a fixed point, returns only new objects (so mutating either side
+never affects the other); every read-only operation returns its receiver unchanged, hence any history of them gives
+the same results; the four string views coincide in the default render mode; `HTMLDocument.render()` no longer
+touches the user's `<html>` tag (F-C08a) and the pinned shallow dependency copy shared its containers (F-C08b).
 -/
 import HtmlVerif.Spec.Equality
 import HtmlVerif.Lemmas.Equality
+import HtmlVerif.Lemmas.Ident
+import HtmlVerif.Lemmas.ReadOps
+import HtmlVerif.Props.C09
 
 namespace HtmlVerif.C08
 open HtmlVerif
@@ -94,5 +101,303 @@ theorem C08_eq_dep (d d' : DepInfo) (h h' : Bool) (k k' : Nodes)
 
 example : (Node.tag ['a'] true [(['i'], .plain ['x'])] (.cons (.text ['t']) .nil)).Plain :=
   .tag (by simp [keysNodup]) (.cons .text .nil)
+
+end HtmlVerif.C08
+
+/-! # identity layer: tagify, independence, purity, views (Model/Ident.lean, Model/ReadOps.lean) -/
+
+namespace HtmlVerif.C08
+open HtmlVerif HtmlVerif.Ident
+
+/-! ### tagify refines the expansion -/
+
+/-- forgetting ids, what the id-level `tagify` puts in a child's place is the child's expansion (`Node.expand`, the
+    forward specification of C09) -/
+theorem C08_tagify_refines (x : ITree) (n : Nat) : (x.itagify n).1.eraseAll = x.erase.expand :=
+  ITree.itagify_erase x n
+
+/-- `TagList.tagify` at the id level erases to `TagList.tagify` as written (`tagifyNodes`, the backwards splice loop) -/
+theorem C08_tagify_refines_list (ks : ITrees) (n : Nat) :
+    (ks.itagifyList n).2.1.eraseAll = tagifyNodes ks.eraseAll ∧ tagifyNodes ks.eraseAll = ks.eraseAll.expandAll :=
+  ⟨itagifyList_erase ks n, C09.C09_tagify_is_spec _⟩
+
+/-- `Tag.tagify` at the id level erases to `Tag.tagify` as written -/
+theorem C08_tagify_refines_tag (x : ITree) (n : Nat) : (x.itagifyTag n).1.erase = tagifyTag x.erase :=
+  itagifyTag_erase x n
+
+/-! ### the result equals the original when nothing needed expansion -/
+
+/-- for a tree of plain library objects (no un-expanded tagifiable object, dicts with distinct keys) nothing needs
+    expansion, `tagify()` returns an equal value, and `==` says so in both directions (dependencies by value) -/
+theorem C08_tagify_eq (x : Node) (hp : plainB x = true) :
+    x.tagified = true ∧ tagifyTag x = x ∧ (tagifyTag x).eqv x = true ∧ x.eqv (tagifyTag x) = true := by
+  have ht := plainB_tagified x hp
+  have hfix : tagifyTag x = x := by
+    cases x with
+    | tag n w a k =>
+      rw [C09.C09_tagify_tag, C09.C09_tagified_fixed k (by simpa [Node.tagified] using ht)]
+    | _ => rfl
+  have hr := C08_eq_refl x (plainB_plain x hp)
+  exact ⟨ht, hfix, by rw [hfix]; exact hr, by rw [hfix]; exact hr⟩
+
+theorem C08_tagify_eq_list (ks : Nodes) (hp : plainKidsB ks = true) :
+    tagifyNodes ks = ks ∧ (tagifyNodes ks).eqvKids ks = true ∧ ks.eqvKids (tagifyNodes ks) = true := by
+  have hfix : tagifyNodes ks = ks := by
+    rw [C09.C09_tagify_is_spec, C09.C09_tagified_fixed ks (plainKidsB_tagified ks hp)]
+  have hr := C08_eq_refl_kids ks (plainKidsB_plain ks hp)
+  exact ⟨hfix, by rw [hfix]; exact hr, by rw [hfix]; exact hr⟩
+
+/-- only the un-expanded objects make the difference: whenever nothing below needs expansion the value is unchanged -/
+theorem C08_tagify_same_value (n : Str) (w : Bool) (a : Attrs) (k : Nodes) (ht : k.tagifiedKids = true) :
+    tagifyTag (.tag n w a k) = .tag n w a k := by
+  rw [C09.C09_tagify_tag, C09.C09_tagified_fixed k ht]
+
+/-! ### the result is a fixed point of tagify -/
+
+theorem C08_tagify_fixed (x : Node) : tagifyTag (tagifyTag x) = tagifyTag x := by
+  cases x with
+  | tag n w a k => simp [C09.C09_tagify_tag, C09.C09_idempotent]
+  | _ => rfl
+
+theorem C08_tagify_fixed_list (ks : Nodes) : tagifyNodes (tagifyNodes ks) = tagifyNodes ks :=
+  C09.C09_tagify_idempotent ks
+
+/-- at the id level: tagifying the copy again gives a tree of the same value (and, by `C08_tagify_fresh`, new objects) -/
+theorem C08_tagify_fixed_ident (x : ITree) (n m : Nat) :
+    ((x.itagifyTag n).1.itagifyTag m).1.erase = (x.itagifyTag n).1.erase := by
+  rw [itagifyTag_erase, itagifyTag_erase, C08_tagify_fixed]
+
+/-! ### freshness: the copy shares no mutable object with the original -/
+
+/-- **Freshness.**  If every object of the original was created before the counter stood at `n`, then every mutable
+    object reachable from what `tagify()` returns — Tag, TagAttrDict, TagList, MetadataNode, and for a dependency its
+    `source` dict, its `script` / `stylesheet` / `meta` lists with their dicts, its `head` list and everything in it —
+    was created by the call (`n ≤ id < counter afterwards`), no object occurs twice, and none is an object of the
+    original.  Guard: no un-expanded tagifiable object sits inside a dependency head (`tagify()` never looks there). -/
+theorem C08_tagify_fresh (x : ITree) (n : Nat) (hx : ∀ i ∈ x.ids, i < n) (g : x.headsPlain = true) :
+    (∀ i ∈ (x.itagify n).1.idsAll, n ≤ i ∧ i < (x.itagify n).2) ∧ (x.itagify n).1.idsAll.Nodup ∧
+    (∀ i ∈ (x.itagify n).1.idsAll, i ∉ x.ids) := by
+  have h := ITree.itagify_ids x n g
+  refine ⟨h.1, h.2, ?_⟩
+  intro i hi hm
+  have := (h.1 i hi).1
+  have := hx i hm
+  omega
+
+/-- the same for the receiver of `Tag.tagify()` -/
+theorem C08_tagify_fresh_tag (i a k : Nat) (nm : Str) (ws : Bool) (at' : Attrs) (kids : ITrees) (n : Nat)
+    (hx : ∀ j ∈ (ITree.tag i a k nm ws at' kids).ids, j < n) (g : kids.headsPlainAll = true) :
+    let r := (ITree.tag i a k nm ws at' kids).itagifyTag n
+    (∀ j ∈ r.1.ids, n ≤ j ∧ j < r.2) ∧ r.1.ids.Nodup ∧ (∀ j ∈ r.1.ids, j ∉ (ITree.tag i a k nm ws at' kids).ids) := by
+  have h := C08_tagify_fresh (.tag i a k nm ws at' kids) n hx (by simpa [ITree.headsPlain] using g)
+  rw [itagify_of_tag] at h
+  simpa [ITrees.idsAll] using h
+
+/-- … and of `TagList.tagify()`: the returned list object is new as well -/
+theorem C08_tagify_fresh_list (lid : Nat) (ks : ITrees) (n : Nat) (hl : lid < n) (hx : ∀ i ∈ ks.idsAll, i < n)
+    (g : ks.headsPlainAll = true) :
+    let r := ks.itagifyList n
+    (∀ i ∈ r.1 :: r.2.1.idsAll, n ≤ i ∧ i < r.2.2) ∧ (r.1 :: r.2.1.idsAll).Nodup ∧
+    (∀ i ∈ r.1 :: r.2.1.idsAll, i ∉ lid :: ks.idsAll) := by
+  simp only [ITrees.itagifyList]
+  have h := ITrees.itagifyAll_ids ks (n + 1) g
+  have hle := ITrees.itagifyAll_le ks (n + 1)
+  have hc := InR.cons h hle
+  refine ⟨hc.1, hc.2, ?_⟩
+  intro i hi hm
+  have h1 := (hc.1 i hi).1
+  rcases List.mem_cons.mp hm with rfl | hm
+  · omega
+  · have := hx i hm
+    omega
+
+/-- a dependency `a-1` without source, with the given `script` items -/
+def exDep (script : List (List (Str × Str))) : DepInfo :=
+  { name := ['a'], version := ['1'], vrank := 0, source := DepSource.none, script := script, stylesheet := [],
+    metas := [], allFiles := false }
+
+/-- a dependency whose head holds a tagifiable object (holding a metadata node), labelled from 0 -/
+def exGuard : ITree × Nat := labelNode (.dep (exDep []) true (.cons (.tobjL none (.cons (.mnode 7) .nil)) .nil)) 0
+
+/-- the guard is needed: a tagifiable user object inside a dependency head is neither expanded nor copied, so what it
+    holds is reachable from both trees -/
+theorem C08_tagify_fresh_guard_needed :
+    exGuard.1.headsPlain = false ∧
+    ((exGuard.1.itagify exGuard.2).1.idsAll.filter (fun i => exGuard.1.ids.contains i)) ≠ [] := by
+  decide
+
+/-! ### independence: mutating either side never affects the other -/
+
+/-- a mutation (any mutation `f`) of an object that does not occur in a tree leaves the tree as it is -/
+theorem C08_independent_core (y : ITree) (i : Nat) (f : Mut) (h : i ∉ y.ids) : y.mutateAt i f = y :=
+  ITree.mutateAt_of_not_mem y i f h
+
+/-- **Independence.**  Mutating any object of the copy leaves the original unchanged, and mutating any object of
+    the original leaves the copy unchanged — whatever the mutation is. -/
+theorem C08_independent (x : ITree) (n : Nat) (hx : ∀ i ∈ x.ids, i < n) (g : x.headsPlain = true) (f : Mut) :
+    (∀ i ∈ (x.itagify n).1.idsAll, x.mutateAt i f = x) ∧
+    (∀ i ∈ x.ids, (x.itagify n).1.mutateAll i f = (x.itagify n).1) := by
+  have h := C08_tagify_fresh x n hx g
+  refine ⟨fun i hi => ITree.mutateAt_of_not_mem x i f (h.2.2 i hi), fun i hi => ?_⟩
+  apply ITrees.mutateAll_of_not_mem
+  intro hm
+  exact h.2.2 i hm hi
+
+/-- `div(HTMLDependency("a", "1", script={"s": "x"}))`, labelled from 0: div 0, its attrs 1, its child list 2,
+    the dependency 3, (its source slot 4), its `script` list 5 with the dict 6, `stylesheet` 7, `meta` 8, (head slot 9) -/
+def exShare : ITree × Nat := labelNode (.tag ['d'] true [] (.cons (.dep (exDep [[(['s'], ['x'])]]) false .nil) .nil)) 0
+
+/-- the mutation `dep.script.append({"s": "e"})` -/
+def exAppend : Mut := { dictsF := fun l => l ++ [{ id := 99, kvs := [(['s'], ['e'])] }] }
+
+/-- negative twin (F-C08b): with the PINNED shallow `copy(HTMLDependency)` the copy's dependency holds the same
+    `script` list (object 5) as the original — appending to it through the copy changes the original; the copy the
+    property demands has no object of the original -/
+theorem C08_pinned_copy_shares :
+    (exShare.1.itagifyPinned exShare.2).1.idsAll.contains 5 = true ∧
+    ((exShare.1.mutateAt 5 exAppend).erase.beq exShare.1.erase) = false ∧
+    ((exShare.1.itagify exShare.2).1.idsAll.filter (fun i => exShare.1.ids.contains i)) = [] := by
+  decide
+
+/-! ### purity: every read-only operation returns its receiver unchanged -/
+
+/-- **Purity** (Tag / HTMLDependency receiver): after any of tagify, render, str, repr, _repr_html_, get_html_string,
+    get_dependencies, copy.copy, as_html_tags, as_dict, source_path_map, serialize_to_script_json the receiver —
+    every object reachable from it — is what it was; and the result is a function of the receiver's value alone
+    (not of the counter, i.e. of nothing that happened before) -/
+theorem C08_pure (cfg : Cfg) (o : ReadOp) (x : ITree) (n : Nat) :
+    (o.step cfg x n).2.1 = x ∧ (o.step cfg x n).1 = o.obs cfg x.erase :=
+  ⟨step_receiver cfg o x n, step_obs cfg o x n⟩
+
+/-- the same for a TagList receiver -/
+theorem C08_pure_list (cfg : Cfg) (o : ReadOp) (s : Nat × ITrees) (n : Nat) :
+    (o.stepList cfg s n).2.1 = s ∧ (o.stepList cfg s n).1 = o.obsList cfg s.2.eraseAll :=
+  ⟨stepList_receiver cfg o s n, stepList_obs cfg o s n⟩
+
+/-- `tagify()` hands back a new tree and leaves the original as it was (by construction of `itagify`: it only reads) -/
+theorem C08_original_unchanged (cfg : Cfg) (x : ITree) (n : Nat) :
+    (ReadOp.step cfg .tagify x n).2.1 = x ∧ (ReadOp.step cfg .tagify x n).1 = .tree (tagifyTag x.erase) :=
+  ⟨rfl, by simp [ReadOp.step, itagifyTag_erase]⟩
+
+/-- **`HTMLDocument.render()` / `save_html()` leave the document alone** — content list, every object in it and the
+    keyword arguments — whatever follows `_gen_html_tag_tree` (`rest`: hoisting, rendering, writing files), which
+    only sees a tagified copy -/
+theorem C08_doc_pure {ρ : Type} (rest : Node → ρ) (cfg : Cfg) (d : IDoc) (n : Nat) :
+    (docGenTree cfg d n).2.1 = d ∧ (docRender rest cfg d n).2.1 = d := by
+  have h : (docGenTree cfg d n).2.1 = d := by
+    unfold docGenTree
+    split
+    · split
+      · rfl
+      · split <;> rfl
+    · rfl
+  exact ⟨h, h⟩
+
+/-- the repair does not change what is rendered: the `<html>` tree handed on is the one the pinned code built -/
+theorem C08_doc_same_tree (cfg : Cfg) (d : IDoc) (n : Nat) :
+    (docGenTree cfg d n).1 = (docGenTreePinned cfg d n).1 := by
+  unfold docGenTree docGenTreePinned
+  split
+  · rename_i i a k nm w at' kids heq
+    by_cases h1 : nm = nHtml
+    · simp only [h1, if_true, ITree.itagifyTag, ITree.erase, updateRootAttrs]
+      cases attrsUpdate cfg at' [d.args] <;> rfl
+    · simp only [h1, if_false]
+  · rfl
+
+/-- negative twin (F-C08a): the PINNED `_gen_html_tag_tree` is not pure — `HTMLDocument(tags.html(), lang="en")`:
+    afterwards the user's `<html>` tag carries `lang="en"` -/
+theorem C08_doc_pinned_impure :
+    let cfg : Cfg := { void := [], noesc := [], textTbl := [], attrTbl := [] }
+    let d : IDoc := { cid := 0, content := .cons (.tag 1 2 3 nHtml true [] .nil) .nil,
+                      args := [(['l', 'a', 'n', 'g'], .str ['e', 'n'])] }
+    d.rootAttrs = some [] ∧
+    (docGenTreePinned cfg d 4).2.1.rootAttrs = some [(['l', 'a', 'n', 'g'], .plain ['e', 'n'])] ∧
+    (docGenTree cfg d 4).2.1.rootAttrs = some [] := by
+  decide
+
+/-! ### repeating read-only operations in any order gives identical results -/
+
+/-- **Any history of read-only operations**: the k-th result is the value of the k-th operation on the *initial*
+    receiver — whatever ran before it — and the receiver at the end is the initial one -/
+theorem C08_repeat (cfg : Cfg) (ops : List ReadOp) (x : ITree) (n : Nat) :
+    (runSeq (ReadOp.step cfg) ops x n).1 = ops.map (fun o => o.obs cfg x.erase) ∧
+    (runSeq (ReadOp.step cfg) ops x n).2.1 = x :=
+  runSeq_spec (ReadOp.step cfg) (fun o s => o.obs cfg s.erase) (step_receiver cfg) (step_obs cfg) ops x n
+
+theorem C08_repeat_list (cfg : Cfg) (ops : List ReadOp) (s : Nat × ITrees) (n : Nat) :
+    (runSeq (ReadOp.stepList cfg) ops s n).1 = ops.map (fun o => o.obsList cfg s.2.eraseAll) ∧
+    (runSeq (ReadOp.stepList cfg) ops s n).2.1 = s :=
+  runSeq_spec (ReadOp.stepList cfg) (fun o s => o.obsList cfg s.2.eraseAll) (stepList_receiver cfg) (stepList_obs cfg) ops s n
+
+/-- the result of an operation does not depend on what was run before it (nor on how many objects exist) -/
+theorem C08_repeat_history (cfg : Cfg) (pre pre' : List ReadOp) (o : ReadOp) (x : ITree) (n n' : Nat) :
+    (runSeq (ReadOp.step cfg) (pre ++ [o]) x n).1.getLast? = (runSeq (ReadOp.step cfg) (pre' ++ [o]) x n').1.getLast? := by
+  rw [(C08_repeat cfg _ x n).1, (C08_repeat cfg _ x n').1]
+  simp
+
+/-- running the same operations in another order gives the same results, in that order -/
+theorem C08_repeat_order (cfg : Cfg) (ops ops' : List ReadOp) (h : ops.Perm ops') (x : ITree) (n n' : Nat) :
+    (runSeq (ReadOp.step cfg) ops x n).1.Perm (runSeq (ReadOp.step cfg) ops' x n').1 := by
+  rw [(C08_repeat cfg ops x n).1, (C08_repeat cfg ops' x n').1]
+  exact h.map _
+
+/-- an operation repeated gives the same result twice -/
+theorem C08_repeat_twice (cfg : Cfg) (o : ReadOp) (x : ITree) (n : Nat) :
+    (runSeq (ReadOp.step cfg) [o, o] x n).1 = [o.obs cfg x.erase, o.obs cfg x.erase] := by
+  simpa using (C08_repeat cfg [o, o] x n).1
+
+/-! ### the four string views -/
+
+/-- **`str(x)`, `repr(x)`, `x._repr_html_()` and `x.render()["html"]` are one function** in the default dependency
+    render mode -/
+theorem C08_views (cfg : Cfg) (x : Node) :
+    strView cfg .invisible x = renderHtmlView cfg x ∧ reprView cfg .invisible x = renderHtmlView cfg x ∧
+    reprHtmlView cfg .invisible x = renderHtmlView cfg x :=
+  ⟨rfl, rfl, rfl⟩
+
+theorem C08_views_list (cfg : Cfg) (ks : Nodes) :
+    strViewList cfg .invisible ks = renderHtmlViewList cfg ks ∧ reprViewList cfg .invisible ks = renderHtmlViewList cfg ks ∧
+    reprHtmlViewList cfg .invisible ks = renderHtmlViewList cfg ks :=
+  ⟨rfl, rfl, rfl⟩
+
+/-- … namely the markup of the expanded tree (never an error) -/
+theorem C08_views_value (cfg : Cfg) (n : Str) (w : Bool) (a : Attrs) (kids : Nodes) :
+    strView cfg .invisible (.tag n w a kids) = .ok ((Node.tag n w a kids.expandAll).render cfg 0 ['\n']) :=
+  (C09.C09_render_tag cfg n w a kids).1
+
+theorem C08_views_value_list (cfg : Cfg) (ks : Nodes) :
+    strViewList cfg .invisible ks = .ok (renderList cfg ks.expandAll 0 ['\n'] true true) :=
+  (C09.C09_render cfg ks).1
+
+/-- `repr` and `_repr_html_` are `str` in every mode; the mode matters for `str` vs `render()["html"]`: in "json" mode
+    `str` appends the serialised dependencies -/
+theorem C08_views_any_mode (cfg : Cfg) (m : RenderMode) (x : Node) :
+    reprView cfg m x = strView cfg m x ∧ reprHtmlView cfg m x = strView cfg m x :=
+  ⟨rfl, rfl⟩
+
+theorem C08_views_json_mode (cfg : Cfg) (x : Node) (h : Str) (hr : renderHtmlView cfg x = .ok h) :
+    strView cfg .json x = .ok (h ++ joinStr ['\n'] (((renderOfTag cfg x).deps.map
+      fun e => sdepOfNode cfg e.1 e.2.1 e.2.2).map (tdSerialize none))) := by
+  simp only [renderHtmlView] at hr
+  simp [strView, strOfRendered, hr, jsonModeStr]
+
+/-! ### non-vacuity -/
+
+/-- a tree with a tag, attributes, a bare metadata node and a dependency with all its containers and a head: labelled
+    from 0 it satisfies the hypotheses of `C08_tagify_fresh` / `C08_independent` with `n` = the label counter -/
+def exampleNode : Node :=
+  .tag ['d', 'i', 'v'] true [(['i', 'd'], .plain ['x'])]
+    (.cons (.text ['t']) (.cons (.mnode 3)
+      (.cons (.dep { name := ['a'], version := ['1'], vrank := 0, source := .href ['h'], script := [[(['s', 'r', 'c'], ['s'])]],
+                     stylesheet := [], metas := [], allFiles := false } true
+                (.cons (.tag ['p'] true [] (.cons (.text ['h']) .nil)) .nil))
+        (.cons (.tobjL none (.cons (.tag ['b'] false [] .nil) .nil)) .nil))))
+
+example : let x := labelNode exampleNode 0
+    (∀ i ∈ x.1.ids, i < x.2) ∧ x.1.headsPlain = true ∧ x.1.ids.length = 17 ∧ (x.1.itagify x.2).1.idsAll.length = 17 := by
+  decide
+
+example : plainB (.tag ['a'] true [(['i'], .plain ['x'])] (.cons (.text ['t']) (.cons (.mnode 1) .nil))) = true := by decide
 
 end HtmlVerif.C08
